@@ -13,8 +13,8 @@ return from `Do` on that cell) — the Go memory model's guarantee for `sync.Onc
 `racefree` is *positional* (it speaks about occurrences, not event values, so repeated calls by
 the same goroutine are covered): for every occurrence of a read of variable `v` in the trace of any
 reachable configuration, the trace before it contains `exit tw o … ret tr o` for the cell `o`
-guarding `v`; **every** write to `v` anywhere in the execution lies before that exit and was made by
-`tw`.  So each write happens-before each read (write →po exit →sync ret →po read) and all writes
+guarding `v`; **every** write to `v` — indeed to any variable of that cell — anywhere in the execution
+lies before that exit and was made by `tw`.  So each write happens-before each read (write →po exit →sync ret →po read) and all writes
 are by one goroutine.  The only assumption on the programs is the static guard discipline
 `GuardedAfter`, which `Props/C12Code.lean` establishes for the regenerated program by evaluation. -/
 namespace Bip39V.CC
@@ -24,7 +24,7 @@ abbrev Tid := Nat
 
 inductive Ev
   | enter (t : Tid) (c : Nat)
-  | write (t : Tid) (v : Nat)
+  | write (t : Tid) (st : CStmt)        -- a closure statement; it writes the variable `st.var`
   | exit (t : Tid) (c : Nat)
   | ret (t : Tid) (c : Nat)
   | read (t : Tid) (v : Nat)
@@ -58,7 +58,7 @@ inductive Step (P : Int → Prog) : Cfg → Cfg → Prop
       Step P s { s with th := upd s.th t (.ready k), trace := s.trace ++ [.ret t c] }
   | stmt (s : Cfg) (t : Tid) (c : Nat) (st : CStmt) (rest : List CStmt) (k : Prog)
       (h : s.th t = .inDo c (st :: rest) k) :
-      Step P s { s with th := upd s.th t (.inDo c rest k), trace := s.trace ++ [.write t st.var] }
+      Step P s { s with th := upd s.th t (.inDo c rest k), trace := s.trace ++ [.write t st] }
   | exit (s : Cfg) (t : Tid) (c : Nat) (k : Prog) (h : s.th t = .inDo c [] k) :
       Step P s { once := upd s.once c .done, th := upd s.th t (.ready k), trace := s.trace ++ [.exit t c, .ret t c] }
   | retVar (s : Cfg) (t : Tid) (v : Nat) (h : s.th t = .ready (.retVar v)) :
@@ -107,7 +107,7 @@ variable (cellOf : Nat → Nat)
 
 def admissible (S : Scan) : Ev → Prop
   | .enter _ c => S.entered c = none
-  | .write t v => S.entered (cellOf v) = some t ∧ S.exited (cellOf v) = false
+  | .write t st => S.entered (cellOf st.var) = some t ∧ S.exited (cellOf st.var) = false
   | .exit t c => S.entered c = some t ∧ S.exited c = false
   | .ret _ c => S.exited c = true
   | .read t v => S.retd t (cellOf v) = true
@@ -204,25 +204,25 @@ theorem find_exit (S : Scan) (τ : List Ev) (c : Nat) (h : (scanFrom S τ).exite
       exact ⟨e :: p, t, q, by simp [hpq], by simpa [scanFrom] using hp⟩
 
 /-- once a cell has exited, nothing guarded by it is written any more -/
-theorem no_write_after (S : Scan) (τ : List Ev) (v : Nat) (h : S.exited (cellOf v) = true) (hok : okFrom cellOf S τ) :
-    ∀ t, Ev.write t v ∉ τ := by
+theorem no_write_after (S : Scan) (τ : List Ev) (c : Nat) (h : S.exited c = true) (hok : okFrom cellOf S τ) :
+    ∀ t st, cellOf st.var = c → Ev.write t st ∉ τ := by
   induction τ generalizing S with
   | nil => simp
   | cons e r ih =>
-    intro t hm
-    have hnext : (S.step e).exited (cellOf v) = true := by
-      have := exited_mono S [e] (cellOf v) h
+    intro t st hv hm
+    have hnext : (S.step e).exited c = true := by
+      have := exited_mono S [e] c h
       simpa [scanFrom] using this
     rcases List.mem_cons.mp hm with heq | hm
     · subst heq
       have := hok.1
-      simp only [admissible] at this
+      simp only [admissible, hv] at this
       rw [h] at this; cases this.2
-    · exact ih _ hnext hok.2 t hm
+    · exact ih _ hnext hok.2 t st hv hm
 
 /-- whoever writes a variable is the goroutine that entered its cell -/
-theorem writer_entered (S : Scan) (τ : List Ev) (t : Tid) (v : Nat) (hok : okFrom cellOf S τ) (hm : Ev.write t v ∈ τ) :
-    (scanFrom S τ).entered (cellOf v) = some t := by
+theorem writer_entered (S : Scan) (τ : List Ev) (t : Tid) (st : CStmt) (hok : okFrom cellOf S τ) (hm : Ev.write t st ∈ τ) :
+    (scanFrom S τ).entered (cellOf st.var) = some t := by
   obtain ⟨a, b, rfl⟩ := List.append_of_mem hm
   rw [okFrom_append] at hok
   have hadm := hok.2.1
@@ -234,8 +234,8 @@ theorem writer_entered (S : Scan) (τ : List Ev) (t : Tid) (v : Nat) (hok : okFr
 theorem ordered_of_ok (τ pre post : List Ev) (tr : Tid) (v : Nat) (hok : okFrom cellOf Scan.init τ)
     (hτ : τ = pre ++ Ev.read tr v :: post) :
     ∃ tw p1 p2 p3, pre = p1 ++ Ev.exit tw (cellOf v) :: p2 ++ Ev.ret tr (cellOf v) :: p3 ∧
-      (∀ t, Ev.write t v ∉ p2 ++ Ev.ret tr (cellOf v) :: p3 ++ Ev.read tr v :: post) ∧
-      (∀ t, Ev.write t v ∈ p1 → t = tw) := by
+      (∀ t st, cellOf st.var = cellOf v → Ev.write t st ∉ p2 ++ Ev.ret tr (cellOf v) :: p3 ++ Ev.read tr v :: post) ∧
+      (∀ t st, cellOf st.var = cellOf v → Ev.write t st ∈ p1 → t = tw) := by
   subst hτ
   rw [okFrom_append] at hok
   obtain ⟨hpre, hread, hpost⟩ := hok
@@ -275,10 +275,10 @@ theorem ordered_of_ok (τ pre post : List Ev) (tr : Tid) (v : Nat) (hok : okFrom
         simp only [scanFrom_append, scanFrom_cons]
       rw [e3]
       exact ⟨hread, hpost⟩
-    exact no_write_after cellOf _ _ v hex hrest
-  · intro t hm
-    have h1 := writer_entered cellOf Scan.init p1 t v hp1 hm
-    rw [hexit.1] at h1
+    exact no_write_after cellOf _ _ (cellOf v) hex hrest
+  · intro t st hv hm
+    have h1 := writer_entered cellOf Scan.init p1 t st hp1 hm
+    rw [hv, hexit.1] at h1
     exact (Option.some.inj h1).symm
 
 /-! ### the invariant linking configurations and traces -/
@@ -395,7 +395,7 @@ theorem inv_step {P : Int → Prog} (hP : ∀ ℓ, GuardedAfter cellOf (fun _ =>
     obtain ⟨hrun, htodo, hk⟩ := inv.inDo t c _ k h
     obtain ⟨hent, hex⟩ := inv.running c t hrun
     have hc : cellOf st.var = c := htodo st (by simp)
-    have hscan := scan_snoc s.trace (Ev.write t st.var)
+    have hscan := scan_snoc s.trace (Ev.write t st)
     refine ⟨ok_snoc cellOf _ _ inv.ok (by simp only [admissible, hc]; exact ⟨hent, hex⟩), ?_, ?_, ?_, ?_, ?_⟩
     all_goals simp only [hscan, Scan.step]
     · exact inv.idle
@@ -503,8 +503,8 @@ theorem inv_reach {P : Int → Prog} (hP : ∀ ℓ, GuardedAfter cellOf (fun _ =
 theorem racefree {P : Int → Prog} (hP : ∀ ℓ, GuardedAfter cellOf (fun _ => False) (P ℓ)) {s : Cfg} (r : Reach P s)
     (pre post : List Ev) (tr : Tid) (v : Nat) (h : s.trace = pre ++ Ev.read tr v :: post) :
     ∃ tw p1 p2 p3, pre = p1 ++ Ev.exit tw (cellOf v) :: p2 ++ Ev.ret tr (cellOf v) :: p3 ∧
-      (∀ t, Ev.write t v ∉ p2 ++ Ev.ret tr (cellOf v) :: p3 ++ Ev.read tr v :: post) ∧
-      (∀ t, Ev.write t v ∈ p1 → t = tw) :=
+      (∀ t st, cellOf st.var = cellOf v → Ev.write t st ∉ p2 ++ Ev.ret tr (cellOf v) :: p3 ++ Ev.read tr v :: post) ∧
+      (∀ t st, cellOf st.var = cellOf v → Ev.write t st ∈ p1 → t = tw) :=
   ordered_of_ok cellOf s.trace pre post tr v (inv_reach hP r).ok h
 
 end Bip39V.CC
